@@ -104,8 +104,12 @@ def one_refine(case):
     c = dict(case)
     c["tmax"] = tmax
     name = "fast_nonMarkov_SIS"
-    rf, _, _, _ = simcases.call(c, True, sim=SimRandom(SEEDED, seed=1))
-    ra, _, _, _ = simcases.call(c, False, sim=SimRandom(SEEDED, seed=1))
+    rf, _, _, tf = simcases.call(c, True, sim=SimRandom(SEEDED, seed=1))
+    ra, _, _, ta = simcases.call(c, False, sim=SimRandom(SEEDED, seed=1))
+    from eonsim import sweeps as _sw
+    bad = _sw.args_violation(c, tf) or _sw.args_violation(c, ta)
+    if bad:
+        return bad, info
     for r, mode in ((rf, "full-data"), (ra, "arrays")):
         if r.status == "exc":
             return [V("crash", "%s/exception/%s" % (name, type(r.exc).__name__),
